@@ -77,8 +77,11 @@ func genBsFile(r *hx.Rng, benchPool []string, unitsUsed []string, shape int) str
 		if r.Chance(0.5) {
 			fmt.Fprintf(&b, "pkg: p%d\n", r.Intn(2))
 		}
-		if r.Chance(0.25) {
+		if r.Chance(0.4) {
 			fmt.Fprintf(&b, "note: run%d\n", r.Intn(3))
+		}
+		if r.Chance(0.3) {
+			fmt.Fprintf(&b, "goarch: %s\n", r.Pick([]string{"amd64", "arm64"}))
 		}
 		if r.Chance(0.2) {
 			u := r.Pick(unitsUsed)
@@ -178,7 +181,23 @@ func genBsInput(r *hx.Rng) (bsInput, bsFlags) {
 		in.Files[1].Content = in.Files[0].Content
 	}
 	fl := bsFlags{alpha: -1, confidence: -1}
-	switch r.Intn(10) {
+	switch r.Intn(16) {
+	case 12, 13:
+		fl.table = "goos"
+		fl.row = ".name"
+	case 8:
+		fl.row = ".name"
+		fl.ignore = ".fullname"
+	case 9:
+		fl.table = "goos"
+		fl.ignore = ".config"
+	case 10:
+		fl.row = ".name"
+		fl.ignore = "/n,/fmt"
+	case 11:
+		fl.table = "pkg"
+		fl.ignore = "note,.file"
+		fl.col = "goos"
 	case 0:
 		fl.col = "/fmt"
 	case 1:
